@@ -1078,8 +1078,8 @@ def _half_close_judge(inp, o):
     if isinstance(o, str):
         return {"input": inp, "what": o, "signature": "C01:half-closed-download-hang"}
     if not o.get("exact") or 226 not in o["codes"]:
-        return {"input": inp, "what": "a client that shut down its sending side of the data connection and read slowly got %d of %d bytes (exact: %r, data error: %r), the server answered %r" % (
-            o["got"], inp["size"], o.get("exact"), o.get("data_error"), o["codes"]), "signature": "C01:half-closed-download-truncated"}
+        return {"input": inp, "what": "a client that shut down its sending side of the data connection and read slowly got %d bytes of %s (exact: %r, data error: %r), the server answered %r" % (
+            o["got"], "the listing of 40 entries" if inp["listing"] else "the %d of the file" % inp["size"], o.get("exact"), o.get("data_error"), o["codes"]), "signature": "C01:half-closed-download-truncated"}
     return None
 
 
